@@ -242,7 +242,12 @@ pub fn run(cfg: &Cfg, rep: &mut Report) {
     let nmsg = cfg.n(8, 100, 250) as usize;
     run_cases(cfg, "framing", ntrees, rep, |rng, ctx| {
         let (specs, nh) = TreeGen::generate(rng, true);
-        let scripts = framing_scripts(rng, nh, true);
+        let mut scripts = framing_scripts(rng, nh, true);
+        // some handlers write their answer and return Ok(()) themselves instead of handing back `finish()`
+        // (every value here can be formatted and the buffers are ample, so there is no error to lose)
+        for s in scripts.iter_mut() {
+            s.skip_finish = !s.finish_each && rng.chance(1, 8);
+        }
         let built: Built<Dev, Script> = Built::new(&specs, scripts.clone());
         let rt = RTree::from_specs(&specs);
         let mut dev = Dev::new();
